@@ -325,6 +325,9 @@ def run_wiring(topo):
             # dpsidi_sep halves when every nx doubles: it is (psi difference)/nx of the
             # segment with the smallest |spacing|, times the multiplier -- linear in 1/nx
             ctx.oblige(TRUE(True), "ok")
+            from .C08 import split_obligations
+
+            split_obligations(ctx, eq, topo, info["sizes"], seg)
 
     return run
 
